@@ -51,7 +51,7 @@ _CLASSES = ['Series', 'Frame', 'FrameHE', 'SeriesHE', 'Index', 'IndexDate', 'Ind
 
 
 def probes(ctx):
-    return []
+    return [{'t': 'history', 'cls': 'Index', 'kind': 'int', 'labels': [1, 5, 9], 'seed': 1, 'ncalls': 1, 'attrs': ['iloc_searchsorted']}]
 
 
 def generate(ctx):
@@ -544,7 +544,7 @@ def _check_history(case, ctx):
         recv = rng.choice(pool)
         c = recv['obj']
         names = [n for n in dir(c) if not n.startswith('_')] + _OPERATORS
-        name = rng.choice(names)
+        name = case['attrs'][step] if case.get('attrs') else rng.choice(names)
         cname = type(c).__name__
         out = invoke(c, name, rng)
         ctx.tally('interface_coverage', f'{cname}.{name}:{out.kind}')
